@@ -151,12 +151,65 @@ def eval_range(e, env):
             return (0, min(a[1], b[0] - 1))
         return None
     if k == 'cond':
-        a = eval_range(e['then'], env)
-        b = eval_range(e['else'], env)
+        et, ee = refine_by_guard(e['c'], env)
+        a = eval_range(e['then'], et) if et is not None else None
+        b = eval_range(e['else'], ee) if ee is not None else None
+        if et is None:
+            a = b          # the condition cannot hold: only the else arm is evaluated
+        if ee is None:
+            b = a
         if a is None or b is None:
             return None
         return (min(a[0], b[0]), max(a[1], b[1]))
     return None
+
+
+def type_range(t):
+    t = t or {}
+    if t.get('k') in ('int', 'enum') and t.get('size'):
+        bits = 8 * t['size']
+        return (-(1 << (bits - 1)), (1 << (bits - 1)) - 1) if t.get('signed') else (0, (1 << bits) - 1)
+    if t.get('k') == 'bool':
+        return (0, 1)
+    return None
+
+
+def refine_by_guard(c, env):
+    """(env on the true edge, env on the false edge) of a condition `v OP constant` (or constant OP v); an environment is None when
+    that edge is infeasible.  A variable that the code itself compares against a constant is believed to range over its whole type
+    outside the guard: the comparison states that the other values can occur (Engler et al.: a check is a belief)."""
+    c0 = strip(c)
+    while isinstance(c0, dict) and c0.get('k') == 'cast':
+        c0 = strip(c0['e'])
+    if not (isinstance(c0, dict) and c0.get('k') == 'bin' and c0.get('op') in ('<', '<=', '>', '>=', '==', '!=')):
+        return env, env
+    l, r = strip(c0['lhs']), strip(c0['rhs'])
+    while isinstance(l, dict) and l.get('k') == 'cast':
+        l = strip(l['e'])
+    while isinstance(r, dict) and r.get('k') == 'cast':
+        r = strip(r['e'])
+    op = c0['op']
+    flip = {'<': '>', '>': '<', '<=': '>=', '>=': '<=', '==': '==', '!=': '!='}
+    for (v, k_, o) in ((l, r, op), (r, l, flip[op])):
+        if isinstance(v, dict) and v.get('k') == 'ref' and v.get('rk') in ('local', 'param'):
+            kr = eval_range(k_, env)
+            if kr is None or kr[0] != kr[1]:
+                continue
+            K = kr[0]
+            base = env.get(v['id']) or type_range(v.get('t'))
+            if base is None:
+                continue
+            lo, hi = base
+            tr = {'<': (lo, min(hi, K - 1)), '<=': (lo, min(hi, K)), '>': (max(lo, K + 1), hi), '>=': (max(lo, K), hi),
+                  '==': (max(lo, K), min(hi, K)), '!=': (lo, hi)}[o]
+            fa = {'<': (max(lo, K), hi), '<=': (max(lo, K + 1), hi), '>': (lo, min(hi, K)), '>=': (lo, min(hi, K - 1)),
+                  '==': (lo, hi), '!=': (max(lo, K), min(hi, K))}[o]
+            et = dict(env)
+            ee = dict(env)
+            et[v['id']] = tr
+            ee[v['id']] = fa
+            return (et if tr[0] <= tr[1] else None), (ee if fa[0] <= fa[1] else None)
+    return env, env
 
 
 def array_subscripts(fn):
@@ -235,8 +288,23 @@ def array_subscripts(fn):
             visit_stmt(s.get('body'), env)
         elif k == 'if':
             visit_expr(s.get('c'), env)
-            visit_stmt(s.get('then'), env)
-            visit_stmt(s.get('else'), env)
+            et, ee = refine_by_guard(s.get('c'), env)
+            # the guarded variable must not be written inside the arm for the refinement to hold there
+            def arm(body, e2):
+                if body is None:
+                    return
+                if e2 is None:
+                    return          # infeasible arm
+                e3 = dict(e2)
+                for vid in list(e3):
+                    if e3[vid] != env.get(vid) and writes_to(body, vid):
+                        if vid in env:
+                            e3[vid] = env[vid]
+                        else:
+                            e3.pop(vid)
+                visit_stmt(body, e3)
+            arm(s.get('then'), et)
+            arm(s.get('else'), ee)
         elif k == 'constexpr_if':
             visit_stmt(s.get('taken'), env)
         elif k == 'decl':
